@@ -13,6 +13,7 @@ CONSTANTS Peers,        \* e.g. {"p1","p2"}
           AddrsOf,      \* function peer -> set of address names
           Limits,       \* set of <<maxIn, maxOut>> pairs to explore (NoLimit or a number)
           MaxCid,       \* number of connection ids that may be allocated
+          WsAddrs,      \* address names that belong to the second (WebSocket) transport; {} = TCP only
           Fixed         \* set of known-finding tags modelled as repaired
 
 VARIABLES ps,     \* peer -> [k, pri, sec, dial]
@@ -20,7 +21,9 @@ VARIABLES ps,     \* peer -> [k, pri, sec, dial]
           tx,     \* cid -> transport-side status
           cpeer,  \* cid -> peer
           cdir,   \* cid -> "in" | "out"
-          caddrs, \* cid -> sequence of addresses handed to the transport
+          caddrs, \* cid -> sequence of addresses handed to the transport(s)
+          otr,    \* cid -> transports on which an open() is still outstanding (PeerState::Opening.transports)
+          ctr,    \* cid -> transport that carries the connection ("?" while only opening)
           limIn, limOut,
           next,   \* next connection id
           known,  \* peer -> set of known addresses
@@ -30,13 +33,24 @@ VARIABLES ps,     \* peer -> [k, pri, sec, dial]
           MaxIn, MaxOut, \* configured limits (fixed in Init)
           out     \* what the last handler did: [calls, events, ret]
 
-vars == <<ps, pend, tx, cpeer, cdir, caddrs, limIn, limOut, next, known, mon, kf, hist, MaxIn, MaxOut, out>>
-mvars == <<ps, pend, tx, cpeer, cdir, caddrs, limIn, limOut, next, known>>
+vars == <<ps, pend, tx, cpeer, cdir, caddrs, otr, ctr, limIn, limOut, next, known, mon, kf, hist, MaxIn, MaxOut, out>>
+mvars == <<ps, pend, tx, cpeer, cdir, caddrs, otr, ctr, limIn, limOut, next, known>>
 
 None == -1
 NoLim == -1
 AddrsDef == [p \in Peers |-> IF p = "p1" THEN {"p1a", "p1b"} ELSE IF p = "p2" THEN {"p2a", "p2b"} ELSE {"p3a"}]
 AddrsOne == [p \in Peers |-> IF p = "p1" THEN {"p1a"} ELSE IF p = "p2" THEN {"p2a"} ELSE {"p3a"}]
+\* two transports: p1 is reachable over both, p2 over TCP only
+AddrsTwoTr == [p \in Peers |-> IF p = "p1" THEN {"p1a", "p1w"} ELSE IF p = "p2" THEN {"p2a"} ELSE {"p3a"}]
+AddrsTwoTr2 == [p \in Peers |-> IF p = "p1" THEN {"p1a", "p1b", "p1w"} ELSE IF p = "p2" THEN {"p2w"} ELSE {"p3a"}]
+NoWs == {}
+WsDef == {"p1w", "p2w", "p3w", "p1x", "p2x", "p3x"}
+TrOf(a) == IF a \in WsAddrs THEN "w" ELSE "t"
+Trs == IF WsAddrs = {} THEN {"t"} ELSE {"t", "w"}
+\* the addresses of sequence `addrs` that belong to transport tr, in order
+OfTr(addrs, tr) == SelectSeq(addrs, LAMBDA a : TrOf(a) = tr)
+\* one call record per transport in `trs` (TCP first)
+PerTr(trs, F(_)) == (IF "t" \in trs THEN <<F("t")>> ELSE <<>>) \o (IF "w" \in trs THEN <<F("w")>> ELSE <<>>)
 NoFixed == {}
 FixedNow == {"hdial-refused-silently", "hdial-addr-refused-silently"}
 LimNone == {<<NoLim, NoLim>>}
@@ -50,7 +64,7 @@ Disc == [k |-> "disc", pri |-> None, sec |-> None, dial |-> None]
 
 Init ==
   /\ ps = [p \in Peers |-> Disc]
-  /\ pend = {} /\ tx = <<>> /\ cpeer = <<>> /\ cdir = <<>> /\ caddrs = <<>>
+  /\ pend = {} /\ tx = <<>> /\ cpeer = <<>> /\ cdir = <<>> /\ caddrs = <<>> /\ otr = <<>> /\ ctr = <<>>
   /\ limIn = {} /\ limOut = {} /\ next = 0
   /\ known = [p \in Peers |-> {}]
   /\ \E lim \in Limits : MaxIn = lim[1] /\ MaxOut = lim[2] /\ mon = MonInit(lim[1], lim[2])
@@ -68,11 +82,16 @@ Handle(stim, calls, events, ret) ==
   /\ out' = [calls |-> calls, events |-> events, ret |-> ret]
   /\ UNCHANGED <<MaxIn, MaxOut>>
 
-NewConn(c, p, dir, addrs, st) ==
+NewConn(c, p, dir, addrs, st, opening, carrier) ==
   /\ tx' = (c :> st) @@ tx
   /\ cpeer' = (c :> p) @@ cpeer
   /\ cdir' = (c :> dir) @@ cdir
   /\ caddrs' = (c :> addrs) @@ caddrs
+  /\ otr' = (c :> opening) @@ otr
+  /\ ctr' = (c :> carrier) @@ ctr
+
+\* cancel(c) on every transport that still has an open() outstanding for c
+CancelCalls(c) == PerTr(otr[c], LAMBDA tr : [c |-> "cancel", cid |-> c, tr |-> tr])
 
 -----------------------------------------------------------------------------
 (* PeerState transitions (peer_state.rs)                                    *)
@@ -130,13 +149,14 @@ DialBody(p, stim, swallow) ==
             /\ (MaxOut = NoLimit => n = Cardinality(known[p]))
             /\ (MaxOut # NoLimit => n = Min({Cardinality(known[p]), MaxOut - Cardinality(limOut)}))
             /\ \E sub \in kSubset(n, known[p]) :
-                 LET addrs == SetToSeq(sub) c == next IN
+                 LET addrs == SetToSeq(sub) c == next trs == {TrOf(a) : a \in sub} IN
                  /\ ps' = [ps EXCEPT ![p] = [k |-> "opening", pri |-> None, sec |-> None, dial |-> c]]
-                 /\ NewConn(c, p, "out", addrs, "opening")
+                 /\ NewConn(c, p, "out", addrs, "opening", trs, "?")
                  /\ pend' = pend \cup {c}
                  /\ next' = next + 1
                  /\ UNCHANGED <<limIn, limOut, known, kf>>
-                 /\ Handle(stim, <<[c |-> "open", cid |-> c, addrs |-> addrs]>>, <<>>, "ok")
+                 \* one open() per transport, each with its own addresses and the same connection id
+                 /\ Handle(stim, PerTr(trs, LAMBDA tr : [c |-> "open", cid |-> c, addrs |-> OfTr(addrs, tr), tr |-> tr]), <<>>, "ok")
 
 UDial(p) == DialBody(p, [a |-> "dial", p |-> p], FALSE)
 
@@ -163,14 +183,14 @@ DialAddrBody(p, a, stim, swallow) ==
        /\ known' = [known EXCEPT ![p] = @ \cup {a}]
        /\ UNCHANGED <<limIn, limOut, kf>>
        /\ IF ps[p].k = "conn" THEN
-               UNCHANGED <<ps, pend, tx, cpeer, cdir, caddrs>> /\ Handle(stim, <<>>, <<>>, IF swallow THEN "ok" ELSE "err")
+               UNCHANGED <<ps, pend, tx, cpeer, cdir, caddrs, otr, ctr>> /\ Handle(stim, <<>>, <<>>, IF swallow THEN "ok" ELSE "err")
           ELSE IF InProgress(p) THEN
-               UNCHANGED <<ps, pend, tx, cpeer, cdir, caddrs>> /\ Handle(stim, <<>>, <<>>, "ok")
+               UNCHANGED <<ps, pend, tx, cpeer, cdir, caddrs, otr, ctr>> /\ Handle(stim, <<>>, <<>>, "ok")
           ELSE LET c == next IN
                /\ ps' = [ps EXCEPT ![p] = [k |-> "dialing", pri |-> None, sec |-> None, dial |-> c]]
-               /\ NewConn(c, p, "out", <<a>>, "dialing")
+               /\ NewConn(c, p, "out", <<a>>, "dialing", {}, TrOf(a))
                /\ pend' = pend \cup {c}
-               /\ Handle(stim, <<[c |-> "dial", cid |-> c, addrs |-> <<a>>]>>, <<>>, "ok")
+               /\ Handle(stim, <<[c |-> "dial", cid |-> c, addrs |-> <<a>>, tr |-> TrOf(a)]>>, <<>>, "ok")
 
 UDialAddr(p, a) == DialAddrBody(p, a, [a |-> "dial_addr", p |-> p, addr |-> a], FALSE)
 \* TransportService::dial_address -> handle (only checks that a /p2p component exists) -> command
@@ -178,7 +198,7 @@ HDialAddr(p, a) == DialAddrBody(p, a, [a |-> "hdial_addr", p |-> p, addr |-> a],
 
 AddKnown(p, a) ==
   /\ known' = [known EXCEPT ![p] = @ \cup {a}]
-  /\ UNCHANGED <<ps, pend, tx, cpeer, cdir, caddrs, limIn, limOut, next, kf>>
+  /\ UNCHANGED <<ps, pend, tx, cpeer, cdir, caddrs, otr, ctr, limIn, limOut, next, kf>>
   /\ Handle([a |-> "add_known", p |-> p, addr |-> a], <<>>, <<>>, "none")
 
 -----------------------------------------------------------------------------
@@ -188,7 +208,7 @@ TDialFail(c) ==
   /\ c \in DOMAIN tx /\ tx[c] = "dialing"
   /\ LET p == cpeer[c] stim == [a |-> "dial_fail", c |-> c, p |-> p] IN
      /\ tx' = [tx EXCEPT ![c] = "failed"]
-     /\ UNCHANGED <<cpeer, cdir, caddrs, limIn, limOut, next, known, kf>>
+     /\ UNCHANGED <<cpeer, cdir, caddrs, otr, ctr, limIn, limOut, next, known, kf>>
      /\ IF c \in pend THEN
              /\ pend' = pend \ {c}
              /\ ps' = [ps EXCEPT ![p] = OnDialFailure(@, c)]
@@ -209,7 +229,7 @@ EstBody(c, p, dir, stim) ==
        /\ tx' = [tx EXCEPT ![c] = "rejected"]
        /\ kf' = IF own THEN kf \cup {"outbound-established-rejected-by-limit"} ELSE kf
        /\ ps' = [ps EXCEPT ![p] = st2]
-       /\ UNCHANGED <<cpeer, cdir, caddrs, limIn, limOut, next, known>>
+       /\ UNCHANGED <<cpeer, cdir, caddrs, otr, ctr, limIn, limOut, next, known>>
        /\ Handle(stim, <<[c |-> "reject", cid |-> c]>>,
                  IF dir = "out" /\ st2.k # "conn"
                    THEN <<[k |-> "proto_dial_failure", peer |-> p, cid |-> -1, addrs |-> caddrs[c]]>> ELSE <<>>, "none")
@@ -221,12 +241,13 @@ EstBody(c, p, dir, stim) ==
             /\ pend' = IF r.cancel # None THEN pend1 \ {r.cancel} ELSE pend1
             /\ tx' = IF r.cancel # None THEN [tx EXCEPT ![c] = "accepting", ![r.cancel] = "cancelled"]
                                         ELSE [tx EXCEPT ![c] = "accepting"]
-            /\ UNCHANGED <<cpeer, cdir, caddrs, next, known, kf>>
-            /\ Handle(stim, IF r.cancel # None THEN <<[c |-> "cancel", cid |-> r.cancel], [c |-> "accept", cid |-> c, ok |-> TRUE]>>
+            /\ otr' = IF r.cancel # None THEN [otr EXCEPT ![r.cancel] = {}] ELSE otr
+            /\ UNCHANGED <<cpeer, cdir, caddrs, ctr, next, known, kf>>
+            /\ Handle(stim, IF r.cancel # None THEN CancelCalls(r.cancel) \o <<[c |-> "accept", cid |-> c, ok |-> TRUE]>>
                                                ELSE <<[c |-> "accept", cid |-> c, ok |-> TRUE]>>, <<>>, "none")
        ELSE /\ pend' = pend1
             /\ tx' = [tx EXCEPT ![c] = "rejected"]
-            /\ UNCHANGED <<ps, cpeer, cdir, caddrs, limIn, limOut, next, known, kf>>
+            /\ UNCHANGED <<ps, cpeer, cdir, caddrs, otr, ctr, limIn, limOut, next, known, kf>>
             /\ Handle(stim, <<[c |-> "reject", cid |-> c]>>, <<>>, "none")
 
 TEstablished(c) ==
@@ -240,7 +261,7 @@ TInEst(c, p) ==
      \* same body, but cpeer changes
      IF Full(limIn, MaxIn) THEN
           /\ pend' = pend1 /\ tx' = [tx EXCEPT ![c] = "rejected"]
-          /\ UNCHANGED <<ps, cdir, caddrs, limIn, limOut, next, known, kf>>
+          /\ UNCHANGED <<ps, cdir, caddrs, otr, ctr, limIn, limOut, next, known, kf>>
           /\ Handle(stim, <<[c |-> "reject", cid |-> c]>>, <<>>, "none")
      ELSE LET r == OnEst(ps[p], c) IN
           IF r.acc THEN
@@ -249,11 +270,12 @@ TInEst(c, p) ==
                /\ pend' = IF r.cancel # None THEN pend1 \ {r.cancel} ELSE pend1
                /\ tx' = IF r.cancel # None THEN [tx EXCEPT ![c] = "accepting", ![r.cancel] = "cancelled"]
                                            ELSE [tx EXCEPT ![c] = "accepting"]
-               /\ UNCHANGED <<cdir, caddrs, limOut, next, known, kf>>
-               /\ Handle(stim, IF r.cancel # None THEN <<[c |-> "cancel", cid |-> r.cancel], [c |-> "accept", cid |-> c, ok |-> TRUE]>>
+               /\ otr' = IF r.cancel # None THEN [otr EXCEPT ![r.cancel] = {}] ELSE otr
+               /\ UNCHANGED <<cdir, caddrs, ctr, limOut, next, known, kf>>
+               /\ Handle(stim, IF r.cancel # None THEN CancelCalls(r.cancel) \o <<[c |-> "accept", cid |-> c, ok |-> TRUE]>>
                                                   ELSE <<[c |-> "accept", cid |-> c, ok |-> TRUE]>>, <<>>, "none")
           ELSE /\ pend' = pend1 /\ tx' = [tx EXCEPT ![c] = "rejected"]
-               /\ UNCHANGED <<ps, cdir, caddrs, limIn, limOut, next, known, kf>>
+               /\ UNCHANGED <<ps, cdir, caddrs, otr, ctr, limIn, limOut, next, known, kf>>
                /\ Handle(stim, <<[c |-> "reject", cid |-> c]>>, <<>>, "none")
 
 \* ConnectionEstablished whose accept() call fails synchronously (the transport lost the connection
@@ -269,8 +291,9 @@ EstLostBody(c, p, dir, stim) ==
                                    ELSE [tx EXCEPT ![c] = "closed"]
        /\ kf' = IF (c \in DOMAIN mon.att /\ mon.att[c].st = "open") \/ r.cancel # None
                   THEN kf \cup {"accept-rolled-back-silently"} ELSE kf
-       /\ UNCHANGED <<cpeer, cdir, caddrs, limIn, limOut, next, known>>
-       /\ Handle(stim, IF r.cancel # None THEN <<[c |-> "cancel", cid |-> r.cancel], [c |-> "accept", cid |-> c, ok |-> FALSE]>>
+       /\ otr' = IF r.cancel # None THEN [otr EXCEPT ![r.cancel] = {}] ELSE otr
+       /\ UNCHANGED <<cpeer, cdir, caddrs, ctr, limIn, limOut, next, known>>
+       /\ Handle(stim, IF r.cancel # None THEN CancelCalls(r.cancel) \o <<[c |-> "accept", cid |-> c, ok |-> FALSE]>>
                                           ELSE <<[c |-> "accept", cid |-> c, ok |-> FALSE]>>, <<>>, "none")
 
 TEstablishedLost(c) ==
@@ -280,7 +303,7 @@ TEstablishedLost(c) ==
 TAcceptOk(c) ==
   /\ c \in DOMAIN tx /\ tx[c] = "accepting"
   /\ tx' = [tx EXCEPT ![c] = "live"]
-  /\ UNCHANGED <<ps, pend, cpeer, cdir, caddrs, limIn, limOut, next, known, kf>>
+  /\ UNCHANGED <<ps, pend, cpeer, cdir, caddrs, otr, ctr, limIn, limOut, next, known, kf>>
   /\ Handle([a |-> "accept_ok", c |-> c, p |-> cpeer[c]], <<>>,
             <<[k |-> "est", peer |-> cpeer[c], cid |-> c, dir |-> cdir[c]]>>, "none")
 
@@ -294,47 +317,56 @@ TAcceptErr(c) ==
      /\ kf' = IF (\E o \in DOMAIN mon.att : (mon.att[o].st = "cancelled" /\ mon.att[o].by = c))
                    \/ (c \in DOMAIN mon.att /\ mon.att[c].st = "open")
                 THEN kf \cup {"accept-rolled-back-silently"} ELSE kf
-     /\ UNCHANGED <<pend, cpeer, cdir, caddrs, next, known>>
+     /\ UNCHANGED <<pend, cpeer, cdir, caddrs, otr, ctr, next, known>>
      /\ Handle([a |-> "accept_err", c |-> c, p |-> p], <<>>, <<>>, "none")
 
 TOpened(c, a) ==
   /\ c \in DOMAIN tx /\ tx[c] = "opening" /\ c \in pend
-  /\ a \in ToSet(caddrs[c])
+  /\ a \in ToSet(caddrs[c]) /\ TrOf(a) \in otr[c]
   /\ LET p == cpeer[c] IN
      /\ ps[p].k = "opening"
      /\ ps' = [ps EXCEPT ![p] = [k |-> "dialing", pri |-> None, sec |-> None, dial |-> c]]
      /\ known' = [known EXCEPT ![p] = @ \cup {a}]
      /\ tx' = [tx EXCEPT ![c] = "negotiating"]
+     /\ otr' = [otr EXCEPT ![c] = {}]
+     /\ ctr' = [ctr EXCEPT ![c] = TrOf(a)]
      /\ UNCHANGED <<pend, cpeer, cdir, caddrs, limIn, limOut, next, kf>>
+     \* the open attempts of every transport still opening (the successful one included) are cancelled
      /\ Handle([a |-> "opened", c |-> c, p |-> p, addr |-> a],
-               <<[c |-> "cancel", cid |-> c], [c |-> "negotiate", cid |-> c]>>, <<>>, "none")
+               CancelCalls(c) \o <<[c |-> "negotiate", cid |-> c, tr |-> TrOf(a)]>>, <<>>, "none")
 
-TOpenFail(c) ==
-  /\ c \in DOMAIN tx /\ tx[c] = "opening" /\ c \in pend
+\* open() failed on transport tr: only the failure of the last transport concludes the attempt, and
+\* its report carries the errors of all transports (TransportManager::opening_errors)
+TOpenFail(c, tr) ==
+  /\ c \in DOMAIN tx /\ tx[c] = "opening" /\ c \in pend /\ tr \in otr[c]
   /\ LET p == cpeer[c] IN
      /\ ps[p].k = "opening"
-     /\ ps' = [ps EXCEPT ![p] = Disc]
-     /\ pend' = pend \ {c}
-     /\ tx' = [tx EXCEPT ![c] = "failed"]
-     /\ UNCHANGED <<cpeer, cdir, caddrs, limIn, limOut, next, known, kf>>
-     /\ Handle([a |-> "open_fail", c |-> c, p |-> p], <<>>,
-               <<[k |-> "open_failure", cid |-> c, addrs |-> caddrs[c]],
-                 [k |-> "proto_dial_failure", peer |-> p, cid |-> -1, addrs |-> caddrs[c]]>>, "none")
+     /\ otr' = [otr EXCEPT ![c] = @ \ {tr}]
+     /\ UNCHANGED <<cpeer, cdir, caddrs, ctr, limIn, limOut, next, known, kf>>
+     /\ IF otr[c] = {tr} THEN
+             /\ ps' = [ps EXCEPT ![p] = Disc]
+             /\ pend' = pend \ {c}
+             /\ tx' = [tx EXCEPT ![c] = "failed"]
+             /\ Handle([a |-> "open_fail", c |-> c, p |-> p, tr |-> tr], <<>>,
+                       <<[k |-> "open_failure", cid |-> c, addrs |-> caddrs[c]],
+                         [k |-> "proto_dial_failure", peer |-> p, cid |-> -1, addrs |-> OfTr(caddrs[c], tr)]>>, "none")
+        ELSE /\ UNCHANGED <<ps, pend, tx>>
+             /\ Handle([a |-> "open_fail", c |-> c, p |-> p, tr |-> tr], <<>>, <<>>, "none")
 
-TInbound ==
+TInbound(tr) ==
   /\ next < MaxCid
-  /\ LET c == next stim == [a |-> "inbound", c |-> c] IN
+  /\ LET c == next stim == [a |-> "inbound", c |-> c, tr |-> tr] IN
      /\ next' = next + 1
      /\ UNCHANGED <<ps, pend, limIn, limOut, known, kf>>
      /\ IF Full(limIn, MaxIn)
-          THEN NewConn(c, "?", "in", <<>>, "rejected") /\ Handle(stim, <<[c |-> "reject_pending", cid |-> c]>>, <<>>, "none")
-          ELSE NewConn(c, "?", "in", <<>>, "in_neg") /\ Handle(stim, <<[c |-> "accept_pending", cid |-> c]>>, <<>>, "none")
+          THEN NewConn(c, "?", "in", <<>>, "rejected", {}, tr) /\ Handle(stim, <<[c |-> "reject_pending", cid |-> c]>>, <<>>, "none")
+          ELSE NewConn(c, "?", "in", <<>>, "in_neg", {}, tr) /\ Handle(stim, <<[c |-> "accept_pending", cid |-> c]>>, <<>>, "none")
 
 \* an accepted pending inbound socket fails its negotiation: the transport drops it silently
 TInDrop(c) ==
   /\ c \in DOMAIN tx /\ tx[c] = "in_neg"
   /\ tx' = [tx EXCEPT ![c] = "failed"]
-  /\ UNCHANGED <<ps, pend, cpeer, cdir, caddrs, limIn, limOut, next, known, kf>>
+  /\ UNCHANGED <<ps, pend, cpeer, cdir, caddrs, otr, ctr, limIn, limOut, next, known, kf>>
   /\ Handle([a |-> "in_drop", c |-> c], <<>>, <<>>, "none")
 
 \* a connection task reports closure of a live connection
@@ -344,7 +376,7 @@ ConnClosed(c) ==
      /\ tx' = [tx EXCEPT ![c] = "closed"]
      /\ ps' = [ps EXCEPT ![p] = r.st]
      /\ limIn' = limIn \ {c} /\ limOut' = limOut \ {c}
-     /\ UNCHANGED <<pend, cpeer, cdir, caddrs, next, known, kf>>
+     /\ UNCHANGED <<pend, cpeer, cdir, caddrs, otr, ctr, next, known, kf>>
      /\ Handle([a |-> "closed", c |-> c, p |-> p], <<>>,
                IF r.ev THEN <<[k |-> "closed", peer |-> p, cid |-> c]>> ELSE <<>>, "none")
 
@@ -352,10 +384,10 @@ Next ==
   \/ \E p \in Peers : UDial(p) \/ HDial(p)
   \/ \E p \in Peers : \E a \in AddrsOf[p] : UDialAddr(p, a) \/ HDialAddr(p, a) \/ (a \notin known[p] /\ AddKnown(p, a))
   \/ \E c \in DOMAIN tx : TDialFail(c) \/ TEstablished(c) \/ TEstablishedLost(c) \/ TAcceptOk(c) \/ TAcceptErr(c)
-                          \/ TOpenFail(c) \/ ConnClosed(c) \/ TInDrop(c)
+                          \/ (\E tr \in Trs : TOpenFail(c, tr)) \/ ConnClosed(c) \/ TInDrop(c)
                           \/ (\E p \in Peers : TInEst(c, p))
                           \/ (\E a \in ToSet(caddrs[c]) : TOpened(c, a))
-  \/ TInbound
+  \/ \E tr \in Trs : TInbound(tr)
 
 Spec == Init /\ [][Next]_vars
 
@@ -382,8 +414,8 @@ CapsOK == /\ (MaxIn # NoLimit => Cardinality(limIn) <= MaxIn)
 LimExact == /\ limIn = {c \in DOMAIN tx : tx[c] \in {"accepting", "live"} /\ cdir[c] = "in"}
             /\ limOut = {c \in DOMAIN tx : tx[c] \in {"accepting", "live"} /\ cdir[c] = "out"}
 
-View == <<ps, pend, tx, cpeer, cdir, caddrs, limIn, limOut, next, known, mon, kf, MaxIn, MaxOut>>
+View == <<ps, pend, tx, cpeer, cdir, caddrs, otr, ctr, limIn, limOut, next, known, mon, kf, MaxIn, MaxOut>>
 \* generation view: the manager/transport state only (monitor and tags are functions of the history)
-GenView == <<ps, pend, tx, cpeer, cdir, caddrs, limIn, limOut, next, known, MaxIn, MaxOut>>
-Emit == PrintT(<<"B", ToJson([maxIn |-> MaxIn, maxOut |-> MaxOut, stims |-> hist'])>>)
+GenView == <<ps, pend, tx, cpeer, cdir, caddrs, otr, ctr, limIn, limOut, next, known, MaxIn, MaxOut>>
+Emit == PrintT(<<"B", ToJson([maxIn |-> MaxIn, maxOut |-> MaxOut, two |-> (WsAddrs # {}), stims |-> hist'])>>)
 =============================================================================
